@@ -92,6 +92,7 @@ def run(ctx):
     ctx.floor('R15.1', 'density/probability/cdf functions', nfun, 21)
     r152(ctx, dists)
     r153(ctx)
+    r1510_odd_erf_inv(ctx)
     r154_inverse_pairs(ctx, dists)
     r155_density_is_derivative(ctx, dists)
     r156_erf_inv_centres(ctx)
@@ -412,3 +413,102 @@ def r157_draw_by_inversion(ctx, dists):
                         f'with g(u) = `{short(drs[0].value, 70)}` the product probability_density(g(u)) * g\'(u) simplifies to `{str(prod)[:140]}`, not to +-1: the sampler does not draw '
                         f'from the distribution that probability_density of {c} declares', where=f'{dcd.name}.draw')
     ctx.floor('R15.7', 'samplers by inversion decided', decided, 2)
+
+
+def r1510_odd_erf_inv(ctx):
+    """erf_inv is an odd function: what it returns for -y is minus what it returns for y.  The inverse cdfs of the normal family lean on
+    it for the lower half of the probabilities.  Decided on path summaries (E10): for y < 0 and for y > 0 the paths are paired by the
+    branch conditions on |y| they take, and the returned expressions must be each other's negation (helpers like sign(y) and
+    copysign(c, y) are evaluated for the case)."""
+    import copy as _copy
+    from ..pathsum import PathSum, Unsupported
+    prog = ctx.prog
+    ctx.rule('R15.10', 'erf_inv(-y) == -erf_inv(y): for every branch on |y| the value returned for y < 0 is the negation of the value returned for y > 0')
+    if 'erf_inv' not in prog.funcs:
+        raise AnalysisError('anchor vanished: utils.erf_inv')
+    mod, fn = prog.funcs['erf_inv']
+    yp = fn.args.args[0].arg
+    anycls = next(iter(prog.classes))
+
+    def const_of_helper(name, rel):
+        """value of a one-argument module-level helper for an argument below / above zero, when every path returns the same constant"""
+        if name not in prog.funcs:
+            return None
+        hf = prog.funcs[name][1]
+        if len(hf.args.args) != 1:
+            return None
+        p = hf.args.args[0].arg
+        try:
+            outs = PathSum(prog, anycls, hf, {('ord', p, '0'): rel, ('bool', f'math.isnan({p})'): False}, assume_validated=False).run()
+        except Unsupported:
+            return None
+        vals = {unparse(o.value) for o in outs if o.kind == 'return' and o.value is not None and not any(isinstance(b, str) for (_c, b) in o.conds)}
+        if len(vals) == 1 and len(outs) == 1:
+            return outs[0].value
+        return None
+
+    class Case(ast.NodeTransformer):
+        def __init__(self, rel):
+            self.rel = rel
+
+        def visit_Call(self, node):
+            self.generic_visit(node)
+            f = unparse(node.func)
+            if f == 'math.copysign' and len(node.args) == 2 and unparse(node.args[1]) == yp:
+                return node.args[0] if self.rel == 'gt' else ast.UnaryOp(op=ast.USub(), operand=node.args[0])
+            if isinstance(node.func, ast.Name) and len(node.args) == 1 and unparse(node.args[0]) == yp:
+                c = const_of_helper(node.func.id, self.rel)
+                if c is not None:
+                    return _copy.deepcopy(c)
+            return node
+
+    def norm(e):
+        """(sign, text of the magnitude)"""
+        sgn = 1
+        while True:
+            if isinstance(e, ast.UnaryOp) and isinstance(e.op, ast.USub):
+                sgn, e = -sgn, e.operand
+            elif isinstance(e, ast.BinOp) and isinstance(e.op, ast.Mult) and isinstance(e.left, ast.Constant) and e.left.value in (1, -1, 1.0, -1.0):
+                sgn, e = sgn * (1 if e.left.value > 0 else -1), e.right
+            elif isinstance(e, ast.BinOp) and isinstance(e.op, ast.Mult) and isinstance(e.left, ast.UnaryOp) and isinstance(e.left.op, ast.USub) \
+                    and isinstance(e.left.operand, ast.Constant) and e.left.operand.value in (1, 1.0):
+                sgn, e = -sgn, e.right
+            elif isinstance(e, ast.BinOp) and isinstance(e.op, ast.Mult) and isinstance(e.right, ast.Constant) and e.right.value in (1, -1, 1.0, -1.0):
+                sgn, e = sgn * (1 if e.right.value > 0 else -1), e.left
+            elif isinstance(e, ast.Constant) and isinstance(e.value, (int, float)) and not isinstance(e.value, bool) and e.value < 0:
+                return -sgn, repr(-e.value)
+            else:
+                return sgn, unparse(e)
+
+    paths = {}
+    try:
+        for rel in ('lt', 'gt'):
+            env = {('ord', yp, '0'): rel, ('bool', f'isinstance({yp}, (float, int))'): True}
+            for o in PathSum(prog, anycls, fn, env, assume_validated=True).run():
+                if o.kind != 'return' or o.value is None:
+                    continue
+                key = tuple((c, b) for (c, b) in o.conds if isinstance(b, str))
+                v = Case(rel).visit(_copy.deepcopy(o.value))
+                ast.fix_missing_locations(v)
+                paths.setdefault(key, {})[rel] = (v, o.node)
+    except Unsupported as e:
+        ctx.ob('R15.10', 'erf_inv:odd', False, sample=f'not summarised ({e})')
+        ctx.finding('R15.10', 'erf_inv:odd:unsupported', None, fn, f'erf_inv is outside the path summaries ({e}): that it is an odd function is not shown',
+                    module=mod, where='utils.erf_inv')
+        return
+    ctx.floor('R15.10', 'branches of erf_inv on |y|', len(paths), 3)
+    for key, d in sorted(paths.items(), key=lambda kv: str(kv[0])):
+        ctx.examined()
+        branch = ' and '.join((('' if b == 'fork:T' else 'not ') + f'({c})') for (c, b) in key) or 'no condition on |y|'
+        if 'lt' not in d or 'gt' not in d:
+            continue                          # a branch only one sign can reach (e.g. an early exit for y < 0 that has a twin elsewhere) is compared below
+        (vn, nn), (vp, _np) = d['lt'], d['gt']
+        sn, tn = norm(vn)
+        sp, tp = norm(vp)
+        ok = tn == tp and sn == -sp
+        ctx.ob('R15.10', f'erf_inv:odd:{branch[:40]}', ok, sample=f'erf_inv for {branch[:60]}: y<0 -> {short(vn, 40)}; y>0 -> {short(vp, 40)}')
+        if not ok:
+            ctx.finding('R15.10', f'erf_inv:odd:{branch[:50]}', None, nn,
+                        f'erf_inv is not odd on the branch {branch[:90]}: for y < 0 it returns `{short(vn, 50)}`, for y > 0 `{short(vp, 50)}` -- the first must be the negation '
+                        f'of the second (the inverse cdfs of the normal family are wrong, not merely imprecise, for probabilities in the lower tail)',
+                        module=mod, where='utils.erf_inv')
